@@ -79,6 +79,7 @@ def corpus():
     items.extend(without_a_option(items))
     items.extend(other_tails(items))
     items.extend(not_converged(items))
+    items.extend(odd_content(items))
     _STATE['corpus'] = items
     _STATE['by_name'] = {it['name']: i for i, it in enumerate(items)}
     return items
@@ -167,6 +168,38 @@ def rerun_twins(items):
                 'twin_of': item['name'], 'rerun': True}
         out.append(twin)
         item['twin'] = twin['name']
+    return out
+
+
+def odd_content(items):
+    '''Values that are not numbers where a table has numbers (what a C
+    program prints for NaN, infinity or an overflowing field), and editions
+    without any RESPONSE FUNCTION block (a criticality job with nothing but
+    the default k-effective estimators).'''
+    import re
+    out = []
+    row = re.compile(rb'^(\d\.\d+e[-+]\d+ - \d\.\d+e[-+]\d+[ \t]+)'
+                     rb'(\d\.\d+e[-+]\d+)', re.M)
+    strip = re.compile(rb'\*{78}\nRESPONSE FUNCTION.*?'
+                       rb'(?=\t  KSTEP ESTIMATOR)', re.S)
+    for item in items:
+        if item.get('path') is None or 'failure' in item['base']:
+            continue
+        data = item['data']
+        hit = row.search(data)
+        if hit and len([o for o in out if 'odd-value' in o['name']]) < 6:
+            for tag, odd in (('nan', b'-nan'), ('stars', b'************')):
+                out.append({'name': 'odd-value-%s/%s' % (tag, item['base']),
+                            'path': None,
+                            'base': 'ov%s-%s' % (tag, item['base']),
+                            'data': data[:hit.start(2)] + odd +
+                            data[hit.end(2):], 'derived': True})
+        if b'KSTEP ESTIMATOR' in data:
+            bare = strip.sub(b'', data)
+            if bare != data and b'RESPONSE FUNCTION' not in bare:
+                out.append({'name': 'no-responses/' + item['base'],
+                            'path': None, 'base': 'nr-' + item['base'],
+                            'data': bare, 'derived': True})
     return out
 
 
